@@ -182,7 +182,13 @@ theorem pullH_shape (s : St) : Shape s (pullH s) := by
       · left; exact ⟨by simp, rfl⟩
       · right; exact ⟨rfl, Or.inr (Or.inl ⟨⟨.loc, s.master, .pull⟩, by simp, rfl⟩)⟩
 
-theorem step_shape (s : St) (op : Op) : Shape s (step s op) := by
+/-- the operations of the original alphabet (everything but the other branch
+`O`, pulls from it and pushes) -/
+def Op.basic : Op → Bool
+  | .commit .. | .update _ | .pull | .bind | .unbind => true
+  | _ => false
+
+theorem step_shape (s : St) (op : Op) (hb : op.basic = true) : Shape s (step s op) := by
   cases op with
   | commit w r l =>
     cases w with
@@ -197,12 +203,130 @@ theorem step_shape (s : St) (op : Op) : Shape s (step s op) := by
   | pull => exact pullH_shape s
   | bind => right; exact ⟨rfl, Or.inl rfl⟩
   | unbind => right; exact ⟨rfl, Or.inl rfl⟩
+  | commitO r => simp [Op.basic] at hb
+  | syncO => simp [Op.basic] at hb
+  | pullOther w st ow l => simp [Op.basic] at hb
+  | push w => simp [Op.basic] at hb
 
-/-- **refused operations change nothing** -/
-theorem refused_noop (s : St) (op : Op) (h : (step s op).2 ≠ .ok) : (step s op).1 = s := by
-  rcases step_shape s op with ⟨_, h2⟩ | ⟨h1, _⟩
-  · exact h2
-  · exact absurd h1 h
+def notBC (e : Entry) : Bool := !(e.br == .loc && e.cause == .boundCommit)
+
+/-- what a step may do to the log: push entries that are not bound-commit local
+writes, or the (local, master) pair of a bound commit -/
+def LogShape (s : St) (x : St × Out) : Prop :=
+  (∃ es : List Entry, (∀ e ∈ es, notBC e = true) ∧ x.1.log = es ++ s.log) ∨
+  (∃ r : Rev, x.1.log = ⟨.loc, r, .boundCommit⟩ :: ⟨.master, r, .boundCommit⟩ :: s.log)
+
+theorem logShape_of_shape {s : St} {x : St × Out} (h : Shape s x) : LogShape s x := by
+  rcases h with ⟨_, h2⟩ | ⟨_, h2 | ⟨e, he, h2⟩ | ⟨r, h2⟩⟩
+  · left; exact ⟨[], by simp, by rw [h2]; rfl⟩
+  · left; exact ⟨[], by simp, by rw [h2]; rfl⟩
+  · left; refine ⟨[e], ?_, by rw [h2]; rfl⟩
+    intro e' he'; simp at he'; subst he'; simp [notBC, he]
+  · right; exact ⟨r, h2⟩
+
+theorem logIf_shape (c : Bool) (e : Entry) (l : List Entry) (he : notBC e = true) :
+    ∃ es : List Entry, (∀ x ∈ es, notBC x = true) ∧ logIf c e l = es ++ l := by
+  cases c
+  · exact ⟨[], by simp, rfl⟩
+  · refine ⟨[e], ?_, rfl⟩
+    intro x hx; simp at hx; subst hx; exact he
+
+theorem pullOtherH_logShape (s : St) (stop : Option Rev) (ow l : Bool) : LogShape s (pullOtherH s stop ow l) := by
+  unfold pullOtherH
+  split
+  · left; exact ⟨[], by simp, rfl⟩
+  · simp only
+    split
+    · left; exact ⟨[], by simp, rfl⟩
+    · rename_i m' _
+      obtain ⟨es1, h1, e1⟩ := logIf_shape (m' != s.master) ⟨.master, m', .pull⟩ s.log (by simp [notBC])
+      split
+      · left; exact ⟨es1, h1, e1⟩
+      · rename_i l' _
+        obtain ⟨es2, h2, e2⟩ := logIf_shape (l' != s.loc) ⟨.loc, l', .pull⟩
+          (logIf (m' != s.master) ⟨.master, m', .pull⟩ s.log) (by simp [notBC])
+        left
+        refine ⟨es2 ++ es1, ?_, ?_⟩
+        · intro e he
+          rcases List.mem_append.mp he with h | h
+          · exact h2 e h
+          · exact h1 e h
+        · show logIf (l' != s.loc) ⟨.loc, l', .pull⟩ (logIf (m' != s.master) ⟨.master, m', .pull⟩ s.log) = _
+          rw [e2, e1, List.append_assoc]
+
+theorem pullOtherMaster_logShape (s : St) (w : Who) (stop : Option Rev) (ow l : Bool) :
+    LogShape s (pullOtherMaster s w stop ow l) := by
+  unfold pullOtherMaster
+  split
+  · left; exact ⟨[], by simp, rfl⟩
+  · split
+    · left; exact ⟨[], by simp, rfl⟩
+    · rename_i m' _
+      obtain ⟨es1, h1, e1⟩ := logIf_shape (m' != s.master) ⟨.master, m', .pull⟩ s.log (by simp [notBC])
+      left
+      refine ⟨es1, h1, ?_⟩
+      simp only
+      split <;> exact e1
+
+theorem pushTo_log (s : St) (src : Rev) : (pushTo s src).1.log = s.log := by
+  unfold pushTo
+  split <;> rfl
+
+theorem step_logShape (s : St) (op : Op) : LogShape s (step s op) := by
+  by_cases hb : op.basic = true
+  · exact logShape_of_shape (step_shape s op hb)
+  · cases op with
+    | commit w r l => simp [Op.basic] at hb
+    | update w => simp [Op.basic] at hb
+    | pull => simp [Op.basic] at hb
+    | bind => simp [Op.basic] at hb
+    | unbind => simp [Op.basic] at hb
+    | commitO r => left; exact ⟨[], by simp, rfl⟩
+    | syncO => left; exact ⟨[], by simp, rfl⟩
+    | pullOther w st ow l =>
+      cases w with
+      | H => exact pullOtherH_logShape s st ow l
+      | M => exact pullOtherMaster_logShape s .M st ow l
+      | L => exact pullOtherMaster_logShape s .L st ow l
+    | push w =>
+      left
+      refine ⟨[], by simp, ?_⟩
+      cases w <;> simp [step, pushTo_log]
+
+/-- **refused operations change nothing** — for every operation except a pull
+from another branch into the heavyweight checkout (see
+`pull_other_master_moved_witness`) -/
+theorem refused_noop (s : St) (op : Op) (hop : ∀ st ow l, op ≠ .pullOther .H st ow l)
+    (h : (step s op).2 ≠ .ok) : (step s op).1 = s := by
+  by_cases hb : op.basic = true
+  · rcases step_shape s op hb with ⟨_, h2⟩ | ⟨h1, _⟩
+    · exact h2
+    · exact absurd h1 h
+  · cases op with
+    | commit w r l => simp [Op.basic] at hb
+    | update w => simp [Op.basic] at hb
+    | pull => simp [Op.basic] at hb
+    | bind => simp [Op.basic] at hb
+    | unbind => simp [Op.basic] at hb
+    | commitO r => simp [step] at h
+    | syncO => simp [step] at h
+    | pullOther w st ow l =>
+      cases w with
+      | H => exact absurd rfl (hop st ow l)
+      | M =>
+        simp only [step, pullOtherMaster] at h ⊢
+        split at h
+        · simp_all
+        · split at h <;> simp_all
+      | L =>
+        simp only [step, pullOtherMaster] at h ⊢
+        split at h
+        · simp_all
+        · split at h <;> simp_all
+    | push w =>
+      cases w <;>
+      · simp only [step, pushTo] at h ⊢
+        split at h <;> simp_all
 
 theorem masterFirst_cons_other (e : Entry) (l : List Entry)
     (he : (e.br == .loc && e.cause == .boundCommit) = false) : masterFirst (e :: l) = masterFirst l := by
@@ -210,17 +334,96 @@ theorem masterFirst_cons_other (e : Entry) (l : List Entry)
   | nil => simp [masterFirst, he]
   | cons m rest => simp [masterFirst, he]
 
+theorem masterFirst_append_other (es l : List Entry) (h : ∀ e ∈ es, notBC e = true) :
+    masterFirst (es ++ l) = masterFirst l := by
+  induction es with
+  | nil => rfl
+  | cons e rest ih =>
+    have he : (e.br == .loc && e.cause == .boundCommit) = false := by
+      have := h e (by simp)
+      unfold notBC at this
+      cases hh : (e.br == .loc && e.cause == .boundCommit)
+      · rfl
+      · rw [hh] at this; cases this
+    rw [List.cons_append, masterFirst_cons_other _ _ he]
+    exact ih (fun x hx => h x (by simp [hx]))
+
 theorem masterFirst_pair (r : Rev) (l : List Entry) :
     masterFirst (⟨.loc, r, .boundCommit⟩ :: ⟨.master, r, .boundCommit⟩ :: l) = masterFirst l := by
   simp [masterFirst]
 
 theorem step_master_first (s : St) (op : Op) (h : masterFirst s.log = true) :
     masterFirst (step s op).1.log = true := by
-  rcases step_shape s op with ⟨_, h2⟩ | ⟨_, h2 | ⟨e, he, h2⟩ | ⟨r, h2⟩⟩
-  · rw [h2]; exact h
-  · rw [h2]; exact h
-  · rw [h2, masterFirst_cons_other e s.log he]; exact h
+  rcases step_logShape s op with ⟨es, hes, h2⟩ | ⟨r, h2⟩
+  · rw [h2, masterFirst_append_other es s.log hes]; exact h
   · rw [h2, masterFirst_pair]; exact h
+
+/-- **pull from another branch, master first to the SAME revision**: a
+successful non-local pull (any stop revision, with or without overwrite) in a
+bound checkout that is in step with its master leaves it in step; when the tip
+moves, the master's tip is written first and the local tip directly after it,
+both to the same revision -/
+theorem bound_pull_other_same_revision (s : St) (stop : Option Rev) (ow : Bool)
+    (hb : s.bound = true) (hl : s.loc = s.master)
+    (h : (step s (.pullOther .H stop ow false)).2 = .ok) :
+    (step s (.pullOther .H stop ow false)).1.loc = (step s (.pullOther .H stop ow false)).1.master ∧
+    ((step s (.pullOther .H stop ow false)).1.loc ≠ s.loc →
+      (step s (.pullOther .H stop ow false)).1.log =
+        ⟨.loc, (step s (.pullOther .H stop ow false)).1.loc, .pull⟩ ::
+        ⟨.master, (step s (.pullOther .H stop ow false)).1.loc, .pull⟩ :: s.log) := by
+  simp only [step, pullOtherH, hb, hl] at h ⊢
+  cases hu : updateRevisions s.graph s.master s.other stop ow with
+  | none => simp [hu] at h
+  | some m' =>
+    simp only [hu, Bool.not_true, Bool.and_false, Bool.false_eq_true, if_false, Bool.not_false, Bool.and_true, if_true]
+    refine ⟨trivial, ?_⟩
+    intro hne
+    have : (m' != s.master) = true := by simpa using hne
+    simp [logIf, this]
+
+/-- a refused pull from another branch never touches the local branch, the
+checkout's tree or the binding -/
+theorem pull_other_refused_local_unchanged (s : St) (stop : Option Rev) (ow l : Bool)
+    (h : (step s (.pullOther .H stop ow l)).2 ≠ .ok) :
+    (step s (.pullOther .H stop ow l)).1.loc = s.loc ∧ (step s (.pullOther .H stop ow l)).1.tH = s.tH ∧
+    (step s (.pullOther .H stop ow l)).1.bound = s.bound := by
+  simp only [step]
+  unfold pullOtherH
+  split
+  · exact ⟨rfl, rfl, rfl⟩
+  · simp only
+    split
+    · exact ⟨rfl, rfl, rfl⟩
+    · split
+      · exact ⟨rfl, rfl, rfl⟩
+      · rename_i hne _ m' hm _ l' hl'
+        exfalso
+        apply h
+        simp only [step]
+        unfold pullOtherH
+        simp only [hne, hm, hl']
+        simp
+
+/-- **Witness (statement violated)**: the checkout has a local-only commit, the
+other branch is ahead of the master: the pull moves the master and then raises
+`DivergedBranches` for the local branch — a refused operation that changed the
+master -/
+theorem pull_other_master_moved_witness :
+    let s := run init [.commit .M "r1" false, .update .H, .syncO, .commitO "r2", .commit .H "r3" true]
+    (step s (.pullOther .H none false false)).2 = .diverged ∧
+    s.master = "r1" ∧ (step s (.pullOther .H none false false)).1.master = "r2" ∧
+    (step s (.pullOther .H none false false)).1.loc = "r3" := by decide
+
+/-- `pull --local` never touches the master -/
+theorem pull_other_local_only (s : St) (stop : Option Rev) (ow : Bool) :
+    (step s (.pullOther .H stop ow true)).1.master = s.master := by
+  simp only [step, pullOtherH]
+  split
+  · rfl
+  · simp only [Bool.not_true, Bool.and_false, Bool.false_eq_true, if_false]
+    split
+    · rfl
+    · rfl
 
 /-- **invariant over operation sequences**: in the log of tip writes of *any*
 sequence of commits (through the master, the checkouts, with --local),
@@ -250,6 +453,15 @@ example :
     let s := run init [.commit .M "r1" false, .update .H, .commit .H "r2" true, .update .M]
     s.bound = true ∧ s.loc ≠ s.master ∧ s.master ≠ null ∧
     (step s (.commit .H "r3" false)).2 = .boundOutOfDate := by decide
+
+/-- the hypotheses of `bound_pull_other_same_revision` hold in a reachable state
+and the pull stops at the requested revision for master and local alike -/
+example :
+    let s := run init [.commit .M "r1" false, .update .H, .syncO, .commitO "r2", .commitO "r3", .commitO "r4"]
+    s.bound = true ∧ s.loc = s.master ∧
+    (step s (.pullOther .H (some "r3") false false)).2 = .ok ∧
+    (step s (.pullOther .H (some "r3") false false)).1.master = "r3" ∧
+    (step s (.pullOther .H (some "r3") false false)).1.loc = "r3" := by decide
 
 /-- a diverged pull is refused -/
 example :
